@@ -131,11 +131,13 @@ func IndexFromFile(ctx context.Context,
 	// reaches the end of the stream before the following worker does (eof=true),
 	// don't advance to the next worker in that case.
 	for _, w := range worker {
+		verifPar(w, "mainAt", 0, 0, false)
 		for chunk := range w.results {
 			// Assemble the list of chunks in the index
 			index.Chunks = append(index.Chunks, chunk)
 			pb.Set(int(chunk.Start + chunk.Size))
 			stats.incAccepted()
+			verifPar(w, "mainPopped", chunk.Start, chunk.Size, false)
 		}
 		// Done reading all chunks from this worker, check for any errors
 		if w.err != nil {
@@ -182,8 +184,11 @@ type pChunker struct {
 }
 
 func (c *pChunker) start(ctx context.Context) {
+	defer verifPar(c, "closed", 0, 0, false)
 	defer close(c.results)
+	defer verifPar(c, "stopped", 0, 0, false)
 	defer c.stop()
+	verifPar(c, "start", 0, 0, false)
 	for {
 		select {
 		case <-ctx.Done():
@@ -205,6 +210,7 @@ func (c *pChunker) start(ctx context.Context) {
 			// last one, we should probably stop all following workers. Meh, shouldn't
 			// be happening for large file or save significant CPU for small ones.
 			c.eof = true
+			verifPar(c, "eof", 0, 0, false)
 			return
 		}
 		// Calculate the chunk ID
@@ -213,6 +219,7 @@ func (c *pChunker) start(ctx context.Context) {
 		// Store it in our bucket
 		chunk := IndexChunk{Start: start, Size: uint64(len(b)), ID: id}
 		c.results <- chunk
+		verifPar(c, "pushed", chunk.Start, chunk.Size, chunk.ID == c.nullChunk.ID)
 
 		// Check if the next worker already has this chunk, at which point we stop
 		// here and let the next continue
@@ -231,6 +238,7 @@ func (c *pChunker) start(ctx context.Context) {
 				for i := 0; i < numNullChunks; i++ {
 					nc = IndexChunk{Start: nc.Start + nc.Size, Size: uint64(len(c.nullChunk.Data)), ID: c.nullChunk.ID}
 					c.results <- nc
+					verifPar(c, "nullPushed", nc.Start, nc.Size, true)
 					zeroes -= uint64(len(c.nullChunk.Data))
 				}
 			}
@@ -240,6 +248,7 @@ func (c *pChunker) start(ctx context.Context) {
 		// we want to skip that and try to sync with the one after
 		if c.next != nil && !c.next.active() && len(c.next.results) == 0 {
 			c.next = c.next.next
+			verifPar(c, "skipped", 0, 0, false)
 		}
 	}
 }
@@ -271,9 +280,12 @@ func (c *pChunker) syncWith(chunk IndexChunk) (bool, uint64) {
 		select {
 		case c.sync, ok = <-c.results:
 			if !ok {
+				verifPar(c, "popClosed", 0, 0, false)
 				return false, 0
 			}
+			verifPar(c, "popped", c.sync.Start, c.sync.Size, c.sync.ID == c.nullChunk.ID)
 		default: // Nothing in my bucket? Move on
+			verifPar(c, "popEmpty", 0, 0, false)
 			return false, 0
 		}
 	}
@@ -299,9 +311,12 @@ func (c *pChunker) syncWith(chunk IndexChunk) (bool, uint64) {
 			select {
 			case c.sync, ok = <-c.results:
 				if !ok {
+					verifPar(c, "scanClosed", 0, 0, false)
 					return false, n
 				}
+				verifPar(c, "scanned", c.sync.Start, c.sync.Size, c.sync.ID == c.nullChunk.ID)
 			default: // Nothing more in my bucket? Move on
+				verifPar(c, "scanEmpty", 0, 0, false)
 				return false, n
 			}
 			if c.sync.ID != c.nullChunk.ID { // Hit the end of the null chunks, stop here
